@@ -190,7 +190,21 @@ func doSet(pj *simdjson.ParsedJson, roots []*ref.Value, l Loc, op setOp, route i
 	cur := modelAt(roots, l)
 	var it simdjson.Iter
 	var lerr error
+	var els *simdjson.Elements
+	var elsParent Loc
+	elsIdx := 0
 	perr := walk.Guard(func() error {
+		if route == routeElems {
+			var ok bool
+			els, elsIdx, elsParent, ok, lerr = locateElems(pj, roots, l)
+			if ok {
+				if lerr == nil {
+					it = els.Elements[elsIdx].Iter
+				}
+				return nil
+			}
+			els = nil
+		}
 		it, lerr = locate(pj, roots, l, route)
 		return nil
 	})
@@ -210,6 +224,12 @@ func doSet(pj *simdjson.ParsedJson, roots []*ref.Value, l Loc, op setOp, route i
 	}
 	var err error
 	perr = walk.Guard(func() error {
+		if els != nil {
+			// through the Element stored in the Elements (as Lookup(k).Iter.Set... does)
+			err = op.apply(&els.Elements[elsIdx].Iter)
+			it = els.Elements[elsIdx].Iter
+			return nil
+		}
 		err = op.apply(&it)
 		return nil
 	})
@@ -227,6 +247,24 @@ func doSet(pj *simdjson.ParsedJson, roots []*ref.Value, l Loc, op setOp, route i
 		}
 		if d := readBack(&it, op.result()); d != "" {
 			return fmt.Sprintf("after %s the editing iterator reads back something else: %s", op, d), true
+		}
+		// the Elements the edit went through must marshal the object as it is now
+		if els != nil {
+			var text []byte
+			var merr error
+			if p := walk.Guard(func() error { text, merr = els.MarshalJSON(); return nil }); p != nil {
+				merr = p
+			}
+			if merr != nil {
+				return fmt.Sprintf("after %s through an Element's iterator, MarshalJSON of the same Elements fails: %v", op, merr), true
+			}
+			v, _, perr := ref.ParseText(text)
+			if perr != nil {
+				return fmt.Sprintf("after %s through an Element's iterator, the same Elements marshal to invalid JSON: %v in %.120q", op, perr, text), true
+			}
+			if d := ref.DiffLoose(modelAt(roots, elsParent), v); d != "" {
+				return fmt.Sprintf("after %s through an Element's iterator, the same Elements marshal another object: %s (text %.120q)", op, d, text), true
+			}
 		}
 		// and through a freshly located iterator, including the cross-type numeric accessors
 		if fresh, err := locateInto(pj, l); err == nil {
